@@ -187,7 +187,7 @@ func runCheck(spec *PropSpec, tier string, seed, workers int) int {
 		cfg.CrossCheck = tier == "thorough"
 		cfg.MaxSeconds = 420
 		if tier == "thorough" {
-			cfg.MaxSeconds = 5400
+			cfg.MaxSeconds = 1500
 			cfg.MaxPaths = 3000000
 		}
 		if hs.Unwind > 0 {
